@@ -203,6 +203,15 @@ class Aff:
                 r = self.scev(sc)
                 if r is not None:
                     return r
+                # the start is an expression this domain has no form for (a quotient ...): it is still the value that comes in from
+                # outside the loop, and the step is the recurrence's
+                if sc.get("affine") and len(sc["ops"]) == 2 and sc.get("loop") == I.b:
+                    step = self.scev(sc["ops"][1])
+                    L = [l for l in self.f.loops if l["header"] == I.b]
+                    if step is not None and step.constant() is not None and L:
+                        outside = [self.value(tuple(x[0])) for x in I.get("inc") if x[1] not in L[0]["blocks"]]
+                        if outside and all(x == outside[0] for x in outside[1:]):
+                            return outside[0].add(Lin.sym(("k", I.b)), step.constant())
             # phi with identical incoming values
             vals = [self.value(tuple(x[0])) for x in I.get("inc")]
             if vals and all(x == vals[0] for x in vals[1:]):
@@ -389,6 +398,22 @@ class Aff:
         base, off = ir.ptr_base(f, L.ops[0])
         if base[0] != "a" or off is None:
             return None
+        # the nearest store before the load in its own block (x->f += n; if (x->f < 16) ...)
+        blk = f.blocks[L.b].insts
+        for iid in reversed(blk[:blk.index(L.id)]):
+            S = f.insts[iid]
+            if S.op == "store":
+                b2, o2 = ir.ptr_base(f, S.ops[1])
+                if b2 == base:
+                    if o2 is None:
+                        break
+                    if o2 < off + L.get("size") and off < o2 + S.get("size"):
+                        if o2 == off and S.get("size") == L.get("size"):
+                            return S
+                        break
+            elif S.op == "call" and not S.is_dbg() and not S.is_lifetime():
+                if any(a[0] in ("i", "a") and ir.ptr_base(f, a)[0] == base for a in S.call_args()):
+                    break
         cands = []
         for S in f.insts:
             if S.op == "store":
@@ -548,29 +573,58 @@ def entails_zero(D, eqs, want_residue=False):
     return all(x == 0 for x in tgt)
 
 
-def prove_equal(A, v, target, block, depth=0, extra=()):
+def prove_equal(A, v, target, block, depth=0, extra=None):
     """prove value(v) == target (a Lin) at `block`, splitting non-recurrence phis by incoming edge.
     Three-valued: (True, None) proven; (False, why) refuted - after eliminating the known equalities the difference
     is a non-zero constant or a non-zero combination of entry values of parameters only (free inputs: not identically
-    zero); (None, why) unknown - the difference contains values the affine domain does not interpret."""
+    zero); (None, why) unknown - the difference contains values the affine domain does not interpret.
+    The facts known at the use (`block`) travel along: they speak about the values merged at the LAST visit of each merge
+    point, so on an incoming edge of a merge block all its phis are replaced together by what comes in on that edge.  A back
+    edge whose incoming values mention the head's own phis (the previous iteration's values under the same name) cannot be
+    resolved this way: unknown, never refuted."""
     f = A.f
     v = tuple(v)
+    facts = list(extra) if extra is not None else A.facts_at(block)
     I = f.inst(v)
     if I is not None and I.op == "phi" and not (I.get("scev") or {}).get("k") == "rec" and depth < 6:
         worst = (True, None)
         for inc, pb in I.get("inc"):
             inc = tuple(inc)
-            # facts collected further down speak about the phis of this block; on this edge each of them is its incoming value
-            facts = _subst_phis(A, list(extra), I.b, pb) + A.facts_on_edge(pb, I.b)
-            ok, why = prove_equal(A, inc, target, pb, depth + 1, facts)
+            if _stale_back_edge(A, I.b, pb, [A.value(inc)] + facts):
+                if worst[0]:
+                    worst = (None, "the value comes round the loop at %s (edge from %s): not an affine function of the entry values" % (f.blocks[I.b].name, f.blocks[pb].name))
+                continue
+            fx = _subst_phis(A, facts, I.b, pb) + A.facts_on_edge(pb, I.b)
+            ok, why = prove_equal(A, inc, target, pb, depth + 1, fx)
             if ok is False:
                 return False, why or ("on edge %s -> %s" % (f.blocks[pb].name, f.blocks[I.b].name))
             if ok is None and worst[0]:
                 worst = (None, why or ("on edge %s -> %s" % (f.blocks[pb].name, f.blocks[I.b].name)))
         return worst
     D = A.value(v).add(target, -1)
-    facts = list(extra) + A.facts_at(block)
     return _prove_zero(A, D, facts, f.blocks[block].name, depth)
+
+
+def _stale_back_edge(A, block, pred, lins):
+    """is pred -> block a back edge on which the incoming values of block's phis (as far as `lins` mention those phis) refer to block's own phis?"""
+    f = A.f
+    L = [l for l in f.loops if l["header"] == block]
+    if not L or pred not in L[0]["blocks"]:
+        return False
+    own = set()
+    for iid in f.blocks[block].insts:
+        P = f.insts[iid]
+        if P.op != "phi":
+            break
+        own.add(("i", P.id))
+    mentioned = {t for e in lins for t in e if t in own}
+    for t in mentioned:
+        P = f.inst(t)
+        for inc, pb in P.get("inc"):
+            if pb == pred and any(u in own for u in A.value(tuple(inc))):
+                return True
+    # the value itself (first element) may already be the incoming expression
+    return any(u in own for u in lins[0]) if lins else False
 
 
 def _prove_zero(A, D, facts, where, depth):
@@ -588,6 +642,10 @@ def _prove_zero(A, D, facts, where, depth):
                 continue
             worst = (True, None)
             for _inc, pb in P.get("inc"):
+                if _stale_back_edge(A, P.b, pb, [Lin()] + [D] + facts):
+                    if worst[0]:
+                        worst = (None, "%s: a value comes round the loop at %s" % (why, f.blocks[P.b].name))
+                    continue
                 D2 = _subst_phis(A, [D], P.b, pb)[0]
                 facts2 = _subst_phis(A, facts, P.b, pb) + A.facts_on_edge(pb, P.b)
                 ok, w2 = _prove_zero(A, D2, facts2, "%s via %s" % (where, f.blocks[pb].name), depth + 1)
